@@ -251,13 +251,20 @@ theorem uq_handleAckTimer {s : State} (h : UQ s) (now : Nat) (c : Bool) : UQ (ha
   repeat' split
   all_goals uq_auto []
 
+theorem uq_pauseNak {s : State} (h : UQ s) (now : Nat) :
+    UQ { s with timer := { s.timer with nak := s.timer.nak.pause now } } :=
+  uq_frame' h rfl rfl rfl rfl rfl (by show Idle (s.timer.nak.pause now); rw [idle_pause h.idle]; exact h.idle) h.fin
+
 theorem uq_handleTimeout {s : State} (h : UQ s) (now : Nat) : UQ (handleTimeout s now) := by
   have h1 : UQ (handleInactivity s now).1 := uq_handleInactivity h now
   have hi : Idle (handleInactivity s now).1.timer.nak := h1.idle
+  have h2 := uq_pauseNak h1 now
+  dsimp only at h2
   simp only [handleTimeout, handleDelayed_nil h.delayed, idle_timeoutOccurred hi]
   repeat' split
   all_goals first
-    | (rename_i hh; cases hh; done)
+    | contradiction
+    | exact uq_handleAckTimer h2 _ _
     | uq_auto [uq_handleAckTimer]
 
 theorem uq_cancel {s : State} (h : UQ s) (now : Nat) : UQ (cancel s now) := by
